@@ -102,27 +102,27 @@ Proof.
             node_acct (node_with n (sub (n_idle n) (t_req t)) (add (n_used n) (t_req t)) rel (n_pipelined n) (<[t_id t := ti]> (n_tasks n)))).
   { intros rel Hnp Hrel1 Hrel2. split; [intros _; simpl; apply sc_sub_some; exact Hsc|]. split; [intros k c Hl; apply (Hnn' k c); rewrite Htasks; exact Hl|].
     intros _ d. simpl. rewrite !Hins. destruct (Hsum d) as (S1 & S2 & S3).
-    rewrite amt_sub_exact by exact Hsc. unfold used_amt, rel_amt, pip_amt. subst ti. simpl.
+    rewrite amt_sub_exact by exact Hsc. unfold used_amt, rel_amt, pip_amt in *. subst ti. simpl.
     rewrite (bool_decide_eq_false_2 (t_status t = Pipelined)) by exact Hnp.
     case_bool_decide as Hr.
-    - rewrite (Hrel1 Hr d). Show. repeat split; lia.
+    - rewrite (Hrel1 Hr d). repeat split; lia.
     - rewrite (Hrel2 Hr). repeat split; lia. }
   destruct (t_status t) eqn:Est;
     try (intros Hq; inversion Hq; subst; apply Hplain; [discriminate|discriminate|reflexivity]).
   - (* Pipelined *)
     intros Hq; inversion Hq; subst. split; [intros _; exact Hsc|]. split; [intros k c Hl; apply (Hnn' k c); rewrite Htasks; exact Hl|].
     intros _ d. simpl. rewrite !Hins. destruct (Hsum d) as (S1 & S2 & S3). rewrite amt_add.
-    unfold used_amt, rel_amt, pip_amt. subst ti. simpl. rewrite Est. simpl. repeat split; lia.
+    unfold used_amt, rel_amt, pip_amt in *. subst ti. simpl. rewrite Est. simpl. repeat split; lia.
   - (* Binding *)
     destruct (less_equal_names _ _ _ _); [|discriminate].
     intros Hq; inversion Hq; subst; apply Hplain; [discriminate|discriminate|reflexivity].
   - (* Releasing *)
-    intros Hq; inversion Hq; subst. apply Hplain; [discriminate|intros _ d; apply amt_add|congruence].
+    intros Hq; inversion Hq; subst. apply Hplain; [discriminate|intros _ d; apply amt_add|intros Hc; exfalso; apply Hc; reflexivity].
 Qed.
 
 Theorem node_remove_acct n tid : node_acct n -> node_acct (node_remove n tid).
 Proof.
-  intros (Hsc & Hnn & Hsum). unfold node_remove. destruct (n_tasks n !! tid) as [c|] eqn:Hl; [|repeat split; assumption].
+  intros (Hsc & Hnn & Hsum). unfold node_remove. destruct (n_tasks n !! tid) as [c|] eqn:Hl; [|split; [exact Hsc|split; [exact Hnn|exact Hsum]]].
   assert (Hnn' : forall k c', delete tid (n_tasks n) !! k = Some c' -> nonneg (t_req c')).
   { intros k c' Hl'. apply lookup_delete_Some in Hl' as [_ Hl']. apply (Hnn _ _ Hl'). }
   destruct (n_has_node n) eqn:Hh; simpl.
@@ -164,15 +164,15 @@ Qed.
 Lemma node_add_alloc n t n' t' : node_add eps n t = inl (n', t') -> n_alloc n' = n_alloc n /\ n_has_node n' = n_has_node n.
 Proof.
   unfold node_add. repeat case_bool_decide; try discriminate.
-  destruct (n_has_node n) eqn:Hh; simpl; [|intros Hq; inversion Hq; subst; auto].
-  destruct (t_status t); try (intros Hq; inversion Hq; subst; auto).
-  destruct (less_equal_names _ _ _ _); [intros Hq; inversion Hq; subst; auto|discriminate].
+  destruct (n_has_node n) eqn:Hh; simpl; [|intros Hq; inversion Hq; subst; simpl; auto].
+  destruct (t_status t); try (intros Hq; inversion Hq; subst; simpl; split; [reflexivity|exact Hh]).
+  destruct (less_equal_names _ _ _ _); [intros Hq; inversion Hq; subst; simpl; split; [reflexivity|exact Hh]|discriminate].
 Qed.
 
 Lemma node_remove_alloc n tid : n_alloc (node_remove n tid) = n_alloc n /\ n_has_node (node_remove n tid) = n_has_node n.
 Proof.
   unfold node_remove. destruct (n_tasks n !! tid) as [c|]; [|auto].
-  destruct (n_has_node n) eqn:Hh; simpl; [|auto]. destruct (t_status c); auto.
+  destruct (n_has_node n) eqn:Hh; simpl; [|auto]. destruct (t_status c); simpl; auto.
 Qed.
 
 Definition nodes_acct (ns : gmap positive node) : Prop := forall i n, ns !! i = Some n -> node_acct n.
